@@ -30,11 +30,11 @@ type rtok struct {
 
 type rendering struct {
 	name    string
-	kw      int  // 0 upper, 1 lower, 2 mixed
+	kw      int // 0 upper, 1 lower, 2 mixed
 	sep     string
-	tight   bool // no blanks around punctuation and operators
-	optOn   bool // optional keywords present
-	delimID bool // identifiers in double quotes
+	tight   bool   // no blanks around punctuation and operators
+	optOn   bool   // optional keywords present
+	delimID bool   // identifiers in double quotes
 	semi    string // statement terminator appended as the console does ("" = none)
 	zeroPad bool   // integer literals written with a leading zero (still decimal)
 }
@@ -106,7 +106,7 @@ func renderTokens(toks []rtok, r rendering) string {
 
 type gen struct{ toks []rtok }
 
-func (g *gen) kw(s string)         { g.toks = append(g.toks, rtok{text: s, kind: 'k'}) }
+func (g *gen) kw(s string)            { g.toks = append(g.toks, rtok{text: s, kind: 'k'}) }
 func (g *gen) kwOpt(s string, o byte) { g.toks = append(g.toks, rtok{text: s, kind: 'k', opt: o}) }
 func (g *gen) id(s string) {
 	switch strings.ToUpper(s) {
@@ -117,8 +117,8 @@ func (g *gen) id(s string) {
 	}
 	g.toks = append(g.toks, rtok{text: s, kind: 'i'})
 }
-func (g *gen) p(s string)          { g.toks = append(g.toks, rtok{text: s, kind: 'p'}) }
-func (g *gen) op(s string)         { g.toks = append(g.toks, rtok{text: s, kind: 'o'}) }
+func (g *gen) p(s string)  { g.toks = append(g.toks, rtok{text: s, kind: 'p'}) }
+func (g *gen) op(s string) { g.toks = append(g.toks, rtok{text: s, kind: 'o'}) }
 
 func (g *gen) lit(v any) {
 	switch x := v.(type) {
@@ -470,7 +470,10 @@ func runC10(env *lib.Env, rep *lib.Report) {
 	}
 	items := []item{
 		colItem(cr("", "a"), "", false), colItem(cr("t", "b"), "", false), colItem(cr("", "a"), "x", false), colItem(cr("", "c"), "y", true),
-		{"lit-int", func(g *gen) sql.DerivedColumn { g.lit(int64(7)); return sql.DerivedColumn{ValueExpressionPrimary: int64(7)} }},
+		{"lit-int", func(g *gen) sql.DerivedColumn {
+			g.lit(int64(7))
+			return sql.DerivedColumn{ValueExpressionPrimary: int64(7)}
+		}},
 		{"lit-str", func(g *gen) sql.DerivedColumn { g.lit("s"); return sql.DerivedColumn{ValueExpressionPrimary: "s"} }},
 		{"cmp", func(g *gen) sql.DerivedColumn {
 			return sql.DerivedColumn{ValueExpressionPrimary: g.cond([]atom{{cr("", "a"), int64(1), sql.EQ}}, nil)}
@@ -589,15 +592,26 @@ func runC10(env *lib.Env, rep *lib.Report) {
 	aggItems := []item{
 		colItem(cr("", "g"), "", false), colItem(cr("", "h"), "", false), colItem(cr("t", "g"), "", false), colItem(cr("", "g"), "gg", true),
 		{"count*", func(g *gen) sql.DerivedColumn {
-			g.kw("COUNT"); g.p("("); g.p("*"); g.p(")")
+			g.kw("COUNT")
+			g.p("(")
+			g.p("*")
+			g.p(")")
 			return sql.DerivedColumn{ValueExpressionPrimary: sql.Count{}}
 		}},
 		{"count-col", func(g *gen) sql.DerivedColumn {
-			g.kw("COUNT"); g.p("("); g.colref(cr("", "v")); g.p(")")
+			g.kw("COUNT")
+			g.p("(")
+			g.colref(cr("", "v"))
+			g.p(")")
 			return sql.DerivedColumn{ValueExpressionPrimary: sql.Count{ValueExpression: cr("", "v")}}
 		}},
 		{"avg", func(g *gen) sql.DerivedColumn {
-			g.kw("AVG"); g.p("("); g.colref(cr("t", "v")); g.p(")"); g.kwOpt("AS", 'A'); g.id("m")
+			g.kw("AVG")
+			g.p("(")
+			g.colref(cr("t", "v"))
+			g.p(")")
+			g.kwOpt("AS", 'A')
+			g.id("m")
 			return sql.DerivedColumn{ValueExpressionPrimary: sql.Average{ValueExpression: cr("t", "v")}, AsClause: "m"}
 		}},
 	}
